@@ -100,6 +100,21 @@ MUTANTS = [
      "            self.writePackedDataRecord(h, data, new_tpos)",
      "                data = None\n\n"
      "            self.writePackedDataRecord(h, data, new_tpos)"),
+    ('C09', 'sanity-ignores-positions', FS,
+     "                if index.get(h.oid, 0) != opos:\n                    return 0  # insane",
+     "                if False:\n                    return 0  # insane"),
+    ('C09', 'readonly-truncates-tail', FS,
+     "            if not read_only:\n                logger.warning(\"%s truncated, possibly due to damaged\"",
+     "            if True:\n                logger.warning(\"%s truncated, possibly due to damaged\""),
+    ('C09', 'sanity-accepts-longer-index', FS,
+     "        if self._file.tell() < pos:\n            return 0  # insane",
+     "        if False:\n            return 0  # insane"),
+    ('C09', 'readonly-saves-index', FS,
+     "        if self._is_read_only:\n            return\n\n        index_name = self.__name__ + '.index'",
+     "        index_name = self.__name__ + '.index'"),
+    ('C09', 'readonly-new-oid', BS,
+     "    def new_oid(self):\n        if self._is_read_only:\n            raise POSException.ReadOnlyError()",
+     "    def new_oid(self):\n        if False:\n            raise POSException.ReadOnlyError()"),
 ]
 
 
